@@ -448,8 +448,9 @@ pub fn merge_distinct_results(
 ) -> Result<Vec<DataChunk>, OperatorError> {
     use std::collections::HashSet;
 
-    // Simple row-based deduplication using hash
-    let mut seen: HashSet<u64> = HashSet::new();
+    // Row-based deduplication on the row's values (a hash alone identifies different rows
+    // whose hashes collide, e.g. NULL and `false`, or any two lists)
+    let mut seen: HashSet<Vec<grafeo_common::types::HashableValue>> = HashSet::new();
     let mut unique_rows: Vec<Vec<Value>> = Vec::new();
 
     for chunks in results {
@@ -465,8 +466,12 @@ pub fn merge_distinct_results(
                     row.push(val);
                 }
 
-                let hash = hash_row(&row);
-                if seen.insert(hash) {
+                let key = row
+                    .iter()
+                    .cloned()
+                    .map(grafeo_common::types::HashableValue::new)
+                    .collect();
+                if seen.insert(key) {
                     unique_rows.push(row);
                 }
             }
@@ -476,6 +481,7 @@ pub fn merge_distinct_results(
     rows_to_chunks(unique_rows, 2048)
 }
 
+#[cfg(test)]
 fn hash_row(row: &[Value]) -> u64 {
     use std::collections::hash_map::DefaultHasher;
     use std::hash::{Hash, Hasher};
